@@ -18,6 +18,9 @@ OBLIGATIONS = [
     "Pkgcore.C26.write_fresh",
     "Pkgcore.C26.rewrite_refines",
     "Pkgcore.C26.rewrite_replaces_segment",
+    "Pkgcore.C26.getDataFd_pos_independent",
+    "Pkgcore.C26.readHistory_independent",
+    "Pkgcore.C26.xpak_roundtrip_shared_fd",
 ]
 TRUSTED = [
     "file objects: open(path,'r+b')/seek/read/write/truncate are modelled as take/drop on the content list (Handle); "
@@ -36,7 +39,9 @@ RULE = ("sequences of 1-5 write_xpak calls on one file: initial content = random
         "payload alternately growing and shrinking; half of the sequences edit what the file already holds (planted segment or previous write): "
         "identical rewrite, same content in another key order (reverse, sorted, shuffle, rotate, swap), one value changed (also same length), values "
         "exchanged between keys, key dropped/added/renamed; plus single-edit mutations of written files fed to the reader/writer, rewritten with a fixed "
-        "mapping or with their own content in reversed order and read back. "
+        "mapping or with their own content in reversed order and read back; every written file is also read back through ONE long-lived Xpak "
+        "instance (75% opened on a file object, 25% on the path) with a random access history: 1-3 items()/values() generators advanced in any "
+        "interleaving, x[key]/x.get(key) lookups between the steps, get of a missing key, len/in, all generators drained in lock step. "
         "non-trivial = a write onto non-empty old content with a non-empty mapping")
 
 REAL_KEYS = ["CATEGORY", "PF", "SLOT", "USE", "DESCRIPTION", "DEPEND", "RDEPEND", "KEYWORDS", "CHOST", "CBUILD", "BUILD_TIME", "SIZE",
@@ -208,6 +213,7 @@ def gen_prefix(rng):
     return body, "random"
 
 
+REPLAY_HISTORY = {}       # (initial hex, step) -> (source kind, ops) of a replayed access history
 PLANTED = [None]          # the mapping of the segment planted by the last gen_prefix call (None: none planted)
 
 
@@ -279,6 +285,125 @@ CORPUS = [
 ]
 
 
+def gen_history(rng, keys):
+    """a history of reads on ONE Xpak instance: generators opened and advanced in any interleaving, keyed lookups in between.
+    ops: ["items"]/["values"] open a generator, ["next", i] advances generator i, ["get", key]/["getitem", key] keyed lookups,
+    ["get-missing"], ["len"], ["contains", key]; ["drain"] advances all open generators in lock step until all are exhausted"""
+    ops, nopen = [], 0
+    style = rng.choice(["walk+lookups", "two-walks", "random", "random", "plain"])
+    if style == "plain":
+        return [[rng.choice(["items", "values"])], ["drain"]], style
+    if style == "walk+lookups":
+        ops.append([rng.choice(["items", "values"])])
+        for _ in range(len(keys)):
+            ops.append(["next", 0])
+            r = rng.random()
+            if keys and r < 0.7:
+                ops.append([rng.choice(["get", "getitem"]), rng.choice(keys)])
+            elif r < 0.8:
+                ops.append(["get-missing"])
+        return ops + [["drain"]], style
+    if style == "two-walks":
+        ops += [[rng.choice(["items", "values"])], [rng.choice(["items", "values"])]]
+        if rng.random() < 0.5:
+            ops.append(["next", rng.randrange(2)])          # one generator runs ahead
+        return ops + [["drain"]], style
+    for _ in range(rng.randrange(3, 2 * len(keys) + 7)):
+        r = rng.random()
+        if nopen < 3 and (r < 0.2 or nopen == 0):
+            ops.append([rng.choice(["items", "values"])]); nopen += 1
+        elif r < 0.6:
+            ops.append(["next", rng.randrange(nopen)])
+        elif r < 0.85 and keys:
+            ops.append([rng.choice(["get", "getitem"]), rng.choice(keys)])
+        elif r < 0.9:
+            ops.append(["get-missing"])
+        elif r < 0.95 and keys:
+            ops.append(["contains", rng.choice(keys)])
+        else:
+            ops.append(["len"])
+    return ops + [["drain"]], style
+
+
+def run_history(Xpak, source, ops, want):
+    """run `ops` on one Xpak(source); `want` = [(key, value)] a plain walk of a fresh instance returned.
+    -> (reads, problems): reads = [(position of the key in the index, canonical value or {"err": kind})] for every data read,
+    problems = texts saying which step returned something else than the entry written under that key"""
+    x = Xpak(source)
+    keys = list(x.keys())
+    problems, reads, gens = [], [], []
+    if keys != [k for k, _ in want]:
+        return reads, [f"keys() = {keys!r}, a plain items() walk lists {[k for k, _ in want]!r}"]
+    wd = dict(want)
+
+    def canon(v):
+        return ["t", v] if isinstance(v, str) else ["b", bytes(v).hex()]
+
+    def advance(gi):
+        g = gens[gi]
+        if g["done"]:
+            return
+        i = g["pos"]
+        try:
+            r = next(g["it"])
+        except StopIteration:
+            g["done"] = True
+            if i != len(want):
+                problems.append(f"{g['kind']}() generator {gi} stopped after {i} of {len(want)} entries")
+            return
+        except Exception as e:
+            g["done"] = True
+            if i < len(want):
+                reads.append((i, {"err": classify(e)}))
+            problems.append(f"{g['kind']}() generator {gi}, entry {i}: raised {type(e).__name__}: {str(e)[:80]}")
+            return
+        g["pos"] += 1
+        if i >= len(want):
+            g["done"] = True
+            problems.append(f"{g['kind']}() generator {gi} yields more than {len(want)} entries")
+            return
+        k, v = r if g["kind"] == "items" else (want[i][0], r)
+        reads.append((i, {"ok": canon(v)} if isinstance(v, (str, bytes)) else {"err": "type"}))
+        if (k, v) != want[i] or type(v) is not type(want[i][1]):
+            problems.append(f"{g['kind']}() generator {gi}, entry {i}: got {(k, v)!r:.160}, the segment holds {want[i]!r:.160}")
+
+    for op in ops:
+        if op[0] in ("items", "values"):
+            gens.append({"kind": op[0], "it": iter(getattr(x, op[0])()), "pos": 0, "done": False})
+        elif op[0] == "next":
+            if op[1] < len(gens):
+                advance(op[1])
+        elif op[0] in ("get", "getitem"):
+            if op[1] not in wd:
+                continue
+            try:
+                v = x.get(op[1]) if op[0] == "get" else x[op[1]]
+            except Exception as e:
+                reads.append((keys.index(op[1]), {"err": classify(e)}))
+                problems.append(f"{op[0]}({op[1]!r}) raised {type(e).__name__}: {str(e)[:80]}")
+                continue
+            reads.append((keys.index(op[1]), {"ok": canon(v)} if isinstance(v, (str, bytes)) else {"err": "type"}))
+            if v != wd[op[1]] or type(v) is not type(wd[op[1]]):
+                problems.append(f"{op[0]}({op[1]!r}) = {v!r:.160}, the segment holds {wd[op[1]]!r:.160}")
+        elif op[0] == "get-missing":
+            missing = "no-such-key"
+            while missing in wd:
+                missing += "-"
+            if x.get(missing) is not None or missing in x:
+                problems.append("get() of a key that was not written returned a value")
+        elif op[0] == "contains":
+            if (op[1] in x) != (op[1] in wd):
+                problems.append(f"{op[1]!r} in xpak is wrong")
+        elif op[0] == "len":
+            if len(x) != len(want):
+                problems.append(f"len() = {len(x)}, {len(want)} entries written")
+        elif op[0] == "drain":
+            while any(not g["done"] for g in gens):
+                for gi in range(len(gens)):
+                    advance(gi)
+    return reads, problems
+
+
 def classify(e):
     from pkgcore.binpkg.xpak import MalformedXpak
     if isinstance(e, MalformedXpak):
@@ -305,8 +430,12 @@ def run(ctx):
         if ctx.replay_cases:
             for c in ctx.replay_cases:
                 if "initial" in c and "maps" in c:
+                    if any(isinstance(m, str) for m in c["maps"]) or not isinstance(c["initial"], str) or c["initial"].startswith("("):
+                        continue
                     seqs.insert(0, (bytes.fromhex(c["initial"]),
                                     [[(k, kind, v if kind == "t" else bytes.fromhex(v)) for k, kind, v in m] for m in c["maps"]], "replay"))
+                    if "history" in c:
+                        REPLAY_HISTORY[(c["initial"], len(c["maps"]) - 1)] = (c.get("source", "fileobj"), c["history"])
         derived_how = []
         for _ in range(ctx.n(700, 14000)):
             PLANTED[0] = None
@@ -358,6 +487,7 @@ def run(ctx):
 
         # ---------------- run the real code, collect the model requests
         reqs, meta = [], []
+        hreqs, hmeta = [], []
         for sid, (initial, ms, kind) in enumerate(seqs):
             with open(path, "wb") as f:
                 f.write(initial)
@@ -382,6 +512,34 @@ def run(ctx):
                 reqs.append({"cmd": "c26.items", "file": content.hex()})
                 reqs.append({"cmd": "c26.spec", "map": to_req_map(m)})
                 meta.append((sid, case, kind, old, m, werr, content, got, rerr))
+                # --- reading back through ONE long-lived instance: interleaved generators and keyed lookups, path and file object sources
+                if werr is None and rerr is None and len(content) < 40000 and (not ctx.quick() or kind.startswith("corpus") or rng.random() < 0.6
+                                                                                or (case["initial"], step) in REPLAY_HISTORY):
+                    want = [(k, v[1] if v[0] == "t" else bytes.fromhex(v[1])) for k, v in got]
+                    fixed = REPLAY_HISTORY.get((case["initial"], step))
+                    plans = []
+                    if fixed is not None:
+                        plans.append((fixed[0], fixed[1], "replay"))
+                    if kind.startswith("corpus") and want:
+                        ks = [k for k, _ in want]
+                        plans.append(("fileobj", [["items"]] + [o for k in ks for o in (["next", 0], ["getitem", ks[0]])] + [["drain"]], "corpus"))
+                        plans.append(("fileobj", [["items"], ["values"], ["drain"]], "corpus"))
+                        plans.append(("path", [["items"], ["values"], ["next", 0], ["get", ks[-1]], ["drain"]], "corpus"))
+                    src = "fileobj" if rng.random() < 0.75 else "path"
+                    ops, style = gen_history(rng, [k for k, _ in want])
+                    plans.append((src, ops, style))
+                    for src, ops, style in plans:
+                        hcase = dict(case, source=src, history=ops)
+                        try:
+                            if src == "fileobj":
+                                with open(path, "rb") as fobj:
+                                    reads, problems = run_history(Xpak, fobj, ops, want)
+                            else:
+                                reads, problems = run_history(Xpak, path, ops, want)
+                        except Exception as e:
+                            reads, problems = [], [f"history raised {type(e).__name__}: {str(e)[:120]}"]
+                        hreqs.append({"cmd": "c26.history", "file": content.hex(), "reads": [i for i, _ in reads], "pos": rng.choice([0, 3, len(content)])})
+                        hmeta.append((hcase, in_domain(m), src, style, ops, reads, problems, len(want)))
                 if werr is not None:
                     break
         # ---------------- mutated files: reader and start detection, model vs code (edge A only)
@@ -435,8 +593,30 @@ def run(ctx):
             mreqs.append({"cmd": "c26.write", "file": b.hex(), "map": to_req_map(m)})
             mmeta.append((b, got, rerr, werr, after, m, back))
 
-        replies = ctx.model(reqs + mreqs)
-        main, mut = replies[: len(reqs)], replies[len(reqs):]
+        replies = ctx.model(reqs + mreqs + hreqs)
+        main, mut, hist = replies[: len(reqs)], replies[len(reqs): len(reqs) + len(mreqs)], replies[len(reqs) + len(mreqs):]
+
+        # ---------------- access histories on one instance: the property on the real code, and model (readHistory) vs code
+        for (hcase, dom, src, style, ops, reads, problems, nkeys), hrep in zip(hmeta, hist):
+            nlook = sum(1 for o in ops if o[0] in ("get", "getitem"))
+            ngen = sum(1 for o in ops if o[0] in ("items", "values"))
+            ctx.case(hcase, nkeys >= 2 and (nlook >= 1 or ngen >= 2), key=repr((hcase["initial"], hcase["maps"], src, ops)))
+            ctx.count("history_src_" + src)
+            ctx.count("history_style_" + style)
+            ctx.count("history_generators_%d" % min(ngen, 3))
+            ctx.count("history_lookups_%s" % ("0" if nlook == 0 else "1-2" if nlook < 3 else "3+"))
+            ctx.count("history_data_reads", len(reads))
+            if problems:
+                detail = (f"reading back through one Xpak({'file object' if src == 'fileobj' else 'path'}) with interleaved reads does not return what "
+                          f"was written (a plain walk of a fresh instance does): " + "; ".join(problems[:3]))
+                if dom:
+                    ctx.violation(hcase, detail)
+                else:
+                    ctx.mismatch(hcase, detail)
+            if hrep == "bad-op" or "ok" not in hrep:
+                ctx.mismatch(hcase, f"model rejects the read history: {str(hrep)[:200]}")
+            elif hrep["ok"] != [r for _, r in reads]:
+                ctx.mismatch(hcase, f"data reads of the history differ from the model's readHistory: code {str([r for _, r in reads])[:200]}, model {str(hrep['ok'])[:200]}")
 
         # ---------------- compare
         SEGMENT_FREE = ("empty", "short", "random", "fake-trailer", "magic-fragment")
@@ -572,6 +752,9 @@ LEVEL_TEXT = ("Kernel-checked Lean 4 theorems about a byte-exact model of Xpak.w
               "rewrite_preserves_prefix, write_fresh); any sequence of rewrites ends in prefix ++ segment(last) (rewrite_replaces_segment); reading "
               "prefix ++ segment(m) returns the same keys in order, text decoded with strict UTF-8, environment* values as bytes "
               "(xpak_roundtrip_partial; the key 'repo' is excluded: xpak_roundtrip_counterexample). The model is tied to the code by a differential run "
-              "over write sequences, damaged files and raw file bytes.")
+              "over write sequences, damaged files and raw file bytes. Reads through one shared file object: every history of data reads (several "
+              "generators interleaved with keyed lookups, any start position) returns step by step what independent reads return "
+              "(getDataFd_pos_independent, readHistory_independent) and hence the written value of each key (xpak_roundtrip_shared_fd); the real "
+              "histories are replayed on the model.")
 LEVEL_NOTE = ("Trusted: Lean kernel, standard axioms; the file-object primitives, struct and the UTF-8/ASCII codecs as modelled; sizes >= 2**32 and "
               "data_source targets are outside the model.")
